@@ -17,6 +17,7 @@ import (
 	"encoding/json"
 	"errors"
 	"fmt"
+	"math"
 	"reflect"
 	"regexp"
 	"sort"
@@ -193,7 +194,7 @@ func genRule(t *rapid.T, inBundle string) RuleSpec {
 		}
 	}
 	r.ID = rapid.SampledFrom(idsU).Draw(t, "id")
-	r.Index = rapid.SampledFrom([]int{0, 0, 0, 1, 2, -1}).Draw(t, "index")
+	r.Index = genIndex(t, []int{0, 0, 0, 1, 2, -1}, "index")
 	r.Override = rapid.IntRange(0, 3).Draw(t, "override") == 3
 	r.Start, r.End = genRange(t)
 	r.Role = rapid.SampledFrom([]string{"voter", "voter", "voter", "voter", "leader", "follower", "learner", "learner"}).Draw(t, "role")
@@ -221,9 +222,20 @@ func genRule(t *rapid.T, inBundle string) RuleSpec {
 	return r
 }
 
+// Rule and group indexes are plain ints for the API (no range check in adjustRule or the HTTP handlers):
+// one in five comes from a pool with the boundary magnitudes.
+var extremeIndexes = []int{120, -10, math.MaxInt64, math.MinInt64, math.MaxInt64 - 1, math.MinInt64 + 1, 1 << 62, -(1 << 62)}
+
+func genIndex(t *rapid.T, usual []int, label string) int {
+	if rapid.IntRange(0, 4).Draw(t, label+"Extreme") == 4 {
+		return rapid.SampledFrom(extremeIndexes).Draw(t, label+"Value")
+	}
+	return rapid.SampledFrom(usual).Draw(t, label)
+}
+
 func genGroup(t *rapid.T) GroupSpec {
 	return GroupSpec{ID: rapid.SampledFrom(groupsU).Draw(t, "gid"),
-		Index:    rapid.SampledFrom([]int{0, 0, 1, 2, 5, -1}).Draw(t, "gindex"),
+		Index:    genIndex(t, []int{0, 0, 1, 2, 5, -1}, "gindex"),
 		Override: rapid.IntRange(0, 2).Draw(t, "goverride") == 2}
 }
 
@@ -1308,7 +1320,9 @@ func (f *fixture) buildUpdate(m *model, op Op) *update {
 					x.ins = append(x.ins, in)
 				}
 				if g == picked {
-					x.spec.Index += op.Delta
+					if d := op.Delta; (d <= 0 || x.spec.Index <= math.MaxInt64-d) && (d >= 0 || x.spec.Index >= math.MinInt64-d) {
+						x.spec.Index += d
+					}
 					if op.Flip {
 						x.spec.Override = !x.spec.Override
 					}
